@@ -100,7 +100,7 @@ def run_function(world: World, c: Contract) -> tuple[Exec, FnResult]:
         params = make_params(ex, c, node)
         env.vars.update(params)
         ex.cur_params = params
-        ex.frames.append({"fid": c.fid, "loops": S.loops_of(node), "loop_specs": c.loops, "fn_node": node, "contract": c, "unroll_while": c.unroll_while, "local_types": c.local_types})
+        ex.frames.append({"module": mod, "fid": c.fid, "loops": S.loops_of(node), "loop_specs": c.loops, "fn_node": node, "contract": c, "unroll_while": c.unroll_while, "local_types": c.local_types})
         if c.ghost_init is not None:
             c.ghost_init(ex, env)
         cx = Ctx(ex, params)
